@@ -270,6 +270,7 @@ func runMonitorCheck(rc *RunCtx, rep *Report, scs []*Scenario,
 			out.Numbers["states"] += int64(x.States)
 			out.Numbers["transitions"] += int64(x.Transitions)
 			out.Numbers["split_steps"] += int64(x.Splits)
+			out.Numbers["map_order_deviations"] += int64(x.MapDeviations)
 			out.Numbers["reconcile_calls_tried"] += int64(x.Probes)
 			out.Numbers["transitions_judged"] += int64(judged)
 			out.Numbers["device_requests_judged"] += int64(devReqs)
